@@ -80,7 +80,12 @@ def _normal_rows(s):
     args = sorted((a.call_hash, a.arg_position if a.arg_position is not None else -1, a.arg_key or "", a.value_hash)
                   for a in sess.query(Argument).all())
     edges = sorted({(e.parent_id, e.child_id) for e in sess.query(CallEdge).all()})
-    return {"call_nodes": cns, "arguments": args, "edges": edges}
+    from redun.backends.db import Evaluation, Handle as HandleRow, Value
+    values = sorted(v.value_hash for v in sess.query(Value).all())
+    evals = sorted((e.eval_hash, e.task_hash, e.args_hash, e.value_hash) for e in sess.query(Evaluation).all())
+    handles = sorted((hr.hash, hr.fullname, hr.key, hr.is_valid) for hr in sess.query(HandleRow).all())
+    return {"call_nodes": cns, "arguments": args, "edges": edges, "values": values, "evaluations": evals,
+            "handles": handles}
 
 
 class DbTemplate:
@@ -310,7 +315,9 @@ def graph_signature(R: Run):
     return (R.result_hash if R.ok else None,
             tuple(c[0] for c in R.rows["call_nodes"]),
             tuple(R.rows["arguments"]),
-            tuple((c[0], c[3], c[4]) for c in R.rows["call_nodes"]))
+            tuple((c[0], c[3], c[4]) for c in R.rows["call_nodes"]),
+            tuple(R.rows["values"]), tuple(R.rows["evaluations"]), tuple(R.rows["handles"]),
+            tuple(R.rows["edges"]))
 
 
 def structural_signature(R: Run):
@@ -342,6 +349,29 @@ def arrival_signature(R: Run):
         for h in R.entry_handles[j] or []:
             sig.setdefault((path(R.parent[j]) if R.parent[j] is not None else None, h), []).append(path(j))
     return sig
+
+
+def cross_parent_arrival(R: Run):
+    """For every Handle hash that children of at least two DIFFERENT parent jobs passed on: the parents (by
+    schedule-independent path) in the order in which those children first reached _exec_job_main_thread."""
+    pos, count = {}, {}
+    for j, p in enumerate(R.parent):
+        count[p] = count.get(p, 0) + 1
+        pos[j] = count[p] - 1
+
+    def path(j):
+        out = []
+        while j is not None:
+            out.append(pos[j])
+            j = R.parent[j]
+        return tuple(reversed(out))
+    seq: dict = {}
+    for j in R.first_entry_seq:
+        if R.parent[j] is None:
+            continue
+        for h in R.entry_handles[j] or []:
+            seq.setdefault(h, []).append(path(R.parent[j]))
+    return {h: tuple(ps) for h, ps in seq.items() if len(set(ps)) > 1}
 
 
 def reentered_handle_jobs(R: Run):
